@@ -212,6 +212,12 @@ def run_hold(kind, compound, mmap, k1, k2, k3, warm=None):
         ctl.enabled = False
         if ctl.n != ntx:
             return "writer op count changed: %s vs %s" % (ctl.n, ntx)
+        # one more probe of the held searcher after the whole script (the last clean-up may be the very
+        # last storage operation, after which no injection point exists)
+        if box["s"] is not None and not box["err"] and not box["refreshed"]:
+            ctl.n = ntx + 1
+            do_probe()
+            ctl.n = ntx
         # final: a fresh searcher sees exactly the last commit
         with ix.searcher() as s:
             if probe(s) != states[PRE_GEN + len(visible)]:
